@@ -12,7 +12,5 @@ def run(tier, seed, work):
     quick = tier == "quick"
     mc = [("MC_Locking.tla", "MC_Locking_base.cfg" if quick else "MC_Locking_C11_thorough.cfg")]
     proofs = [verif.prove("Proofs_LockingArith", work)]   # TLAPS: a slash takes between 1 unit and the whole holding; an unlock releases at most min(asked, held)
-    return verif.run_stateful_check("C11", tier, seed, work, mc_list=mc, groups=lc.groups("C11", seed, quick, modes=("", "burst")) + [
-                                        # conservation spans restarts from an exported state: histories with export / import cycles, continued on the imported chain
-                                        ("Trace_Locking.tla", "Trace_Locking_C11_pr1.cfg", [("c11reimp_%d" % j, ["reimport", "-n", 2 if quick else 12, "-depth", 30, "-seed", seed * 1000 + 310 + j, "-mode", "locking"]) for j in range(4 if quick else 8)])], key_fn=lc.key,
+    return verif.run_stateful_check("C11", tier, seed, work, mc_list=mc, groups=lc.groups("C11", seed, quick, modes=("", "burst")), key_fn=lc.key,
                                     level="model_checking", extra_cov=dict(unbounded_lemmas=proofs), assumptions=lc.COMMON_ASSUME, rule=RULE)
